@@ -26,6 +26,8 @@ EXTENDS Integers, Sequences, FiniteSets, TLC, Json
 CONSTANTS MaxTracks, Times,       \* Times: sequence of <<m, s, f>> in increasing order to draw first indices from
           BinLens,                \* set of bin lengths (bytes beyond the last track's offset are derived)
           Others,                 \* unknown lines that may be inserted (raw text)
+          Repeats,                \* how many copies of the inserted line are inserted at the chosen position (set of counts)
+          Dense,                  \* TRUE: one deterministic sheet of MaxTracks titled tracks at Times[1..MaxTracks] (long sheets)
           WithData,               \* allow a leading data track (sampler image behind a cue sheet)
           EmitCases
 
@@ -41,7 +43,7 @@ IndexLine(n, t) == L("INDEX", n, "", t[1], t[2], t[3])
 TitleLine(t) == L("TITLE", 0, t, 0, 0, 0)
 OtherLine(k) == L("OTHER", 0, k, 0, 0, 0)
 BlankLine == L("BLANK", 0, "", 0, 0, 0)
-NoIns == [pos |-> 0, line |-> BlankLine]
+NoIns == [pos |-> 0, line |-> BlankLine, rep |-> 1]
 
 \* ---- the parser ---------------------------------------------------------------------
 \* get_nonempty_entry: <<line or "none", remaining lines>>
@@ -104,7 +106,7 @@ CddaWindows(m, blen) ==
       frames |-> IF k < Len(at) THEN 588 * (Frames(at[k + 1].indices[1]) - Frames(at[k].indices[1])) ELSE (blen - off) \div 4]]
 
 \* ---- building sheets --------------------------------------------------------------------
-Apply(sh, i) == IF i.pos = 0 THEN sh ELSE SubSeq(sh, 1, i.pos - 1) \o <<i.line>> \o SubSeq(sh, i.pos, Len(sh))
+Apply(sh, i) == IF i.pos = 0 THEN sh ELSE SubSeq(sh, 1, i.pos - 1) \o [k \in 1..i.rep |-> i.line] \o SubSeq(sh, i.pos, Len(sh))
 Lines == Apply(sheet, ins)
 
 NTracks(sh) == Len(SelectSeq(sh, LAMBDA l : l.c = "TRACK"))
@@ -117,13 +119,14 @@ Init == /\ sheet = <<FileLine("image.bin")>> /\ ins = NoIns /\ binlen = 0 /\ pha
 AddTrack ==
   /\ phase = "build" /\ NTracks(sheet) < MaxTracks
   /\ \E ti \in 1..Len(Times) : \E titled \in BOOLEAN, pre \in BOOLEAN, extra \in BOOLEAN :
+       /\ Dense => ti = NTracks(sheet) + 1 /\ titled /\ ~pre /\ (extra <=> ti % 2 = 0)
        /\ Frames(<<1>> \o Times[ti]) + 1 > LastTime(sheet)
        /\ pre => ti < Len(Times)             \* INDEX 00 at Times[ti], INDEX 01 at the next time of the list
        /\ LET n == NTracks(sheet) + 1
               mode == IF WithData /\ n = 1 THEN "MODE1/2352" ELSE "AUDIO"
               t == Times[ti]
           IN sheet' = sheet \o <<TrackLine(n, mode)>>
-                        \o (IF titled THEN <<TitleLine(<<"Intro", "Second Song", "03 - Outro">>[n])>> ELSE <<>>)
+                        \o (IF titled THEN <<TitleLine(IF n <= 3 THEN <<"Intro", "Second Song", "03 - Outro">>[n] ELSE "Track " \o ToString(n))>> ELSE <<>>)
                         \o (IF pre THEN <<IndexLine(0, t)>> ELSE <<>>)      \* pregap index listed first: it is the first index
                         \o <<IndexLine(1, IF pre THEN Times[ti + 1] ELSE t)>>
                         \o (IF extra THEN <<IndexLine(2, LET u == IF pre THEN Times[ti + 1] ELSE t IN <<u[1], u[2] + 1, u[3]>>)>> ELSE <<>>)
@@ -135,9 +138,10 @@ AllowedPos(sh, line) ==
   ELSE {1} \cup {p \in 2..(Len(sh) + 1) : \E q \in 1..(p - 1) : sh[q].c = "TRACK"}
 
 Decorate ==
-  /\ phase = "build" /\ NTracks(sheet) >= 1
-  /\ \E line \in {BlankLine} \cup {OtherLine(k) : k \in Others} : \E p \in AllowedPos(sheet, line) \cup {0} :
-        ins' = IF p = 0 THEN NoIns ELSE [pos |-> p, line |-> line]
+  /\ phase = "build" /\ NTracks(sheet) >= 1 /\ (Dense => NTracks(sheet) = MaxTracks)
+  /\ \E line \in {BlankLine} \cup {OtherLine(k) : k \in Others} : \E p \in AllowedPos(sheet, line) \cup {0} : \E r \in Repeats :
+        /\ Dense => p \in {0, 1, Len(sheet) \div 2, Len(sheet) + 1}        \* a long sheet is decorated at a few places only
+        /\ ins' = IF p = 0 THEN NoIns ELSE [pos |-> p, line |-> line, rep |-> r]
   /\ \E bl \in BinLens : binlen' = 2352 * (LastTime(sheet) - 1) + bl
   /\ phase' = "done" /\ UNCHANGED sheet
 
@@ -166,7 +170,8 @@ WindowsTile ==
 DataTrackCueIsSampler == (phase = "done" /\ WithData) => Kind(Meaning(Lines)) = "sampler"
 
 Emit == (EmitCases /\ phase = "done") =>
-   PrintT(<<"CASE", ToJson([lines |-> Lines, canonical |-> sheet, ins |-> ins, binlen |-> binlen,
+   PrintT(<<"CASE", ToJson([lines |-> IF ins.rep > 3 THEN <<>> ELSE Lines,        \* a bulk insertion is expanded by the reader
+                            canonical |-> sheet, ins |-> ins, binlen |-> binlen,
                             meaning |-> Meaning(sheet), kind |-> Kind(Meaning(sheet)),
                             windows |-> IF WithData THEN <<>> ELSE CddaWindows(Meaning(sheet), binlen)])>>)
 =============================================================================
